@@ -16,17 +16,25 @@ import (
 	"crypto/sha256"
 	"fmt"
 	"math/rand"
+	"runtime"
+	"runtime/debug"
 	"sort"
 	"strings"
+	"sync"
+	"sync/atomic"
 	"testing"
 	"testing/synctest"
 	"time"
 
+	"github.com/ipfs/go-cid"
 	kb "github.com/libp2p/go-libp2p-kbucket"
 	"github.com/libp2p/go-libp2p/core/peer"
 	ma "github.com/multiformats/go-multiaddr"
+	mh "github.com/multiformats/go-multihash"
 
+	kaddht "github.com/libp2p/go-libp2p-kad-dht"
 	"github.com/libp2p/go-libp2p-kad-dht/amino"
+	"github.com/libp2p/go-libp2p-kad-dht/crawler"
 	"github.com/libp2p/go-libp2p-kad-dht/internal/verif/vh"
 	"github.com/libp2p/go-libp2p-kad-dht/internal/verif/vsim"
 )
@@ -686,4 +694,402 @@ func TestVerifRace_C16_swap(t *testing.T) {
 				c.Nontrivial(fmt.Sprintf("%d/%d/%v/%s", K, limit, sizes, strings.Join(seq, "")))
 			}
 		})
+}
+
+// ---- safety: empty table / missing construction options ---------------------------------------------
+
+type vC16Op struct {
+	Name    string
+	Store   bool // an operation that must not report success when nothing could be stored
+	Lookup  bool // an operation that must report an error when nothing can be found
+	Bulk    bool
+	Run     func(ctx context.Context) (empty bool, err error)
+}
+
+// vC16Call runs one operation with panic recovery and a virtual-time measurement.
+func vC16Call(c *vh.Case, op vC16Op, emptyTable bool, budget time.Duration) {
+	ctx, cancel := context.WithCancel(context.Background())
+	defer cancel()
+	start := time.Now()
+	var (
+		empty bool
+		err   error
+		pan   any
+		stack string
+	)
+	func() {
+		defer func() {
+			if r := recover(); r != nil {
+				pan = r
+				stack = string(debug.Stack())
+			}
+		}()
+		empty, err = op.Run(ctx)
+	}()
+	took := time.Since(start)
+	c.Obs("operations", 1)
+	c.Clause("no-panic")
+	if pan != nil {
+		sig := "panic@" + vh.TopRepoFrame([]byte(stack)) + "/" + op.Name
+		if op.Bulk && emptyTable && strings.Contains(fmt.Sprint(pan), "divide by zero") {
+			sig = "bulk/empty-table/div0"
+		}
+		c.FailSig("no-panic", sig, "%s panicked: %v\n%s", op.Name, pan, vC16Trim(stack, 3000))
+		return
+	}
+	c.Check(took <= budget, "returns-promptly", "%s took %v of virtual time on an instance that has nobody to talk to (budget %v)", op.Name, took, budget)
+	if !emptyTable {
+		return
+	}
+	switch {
+	case op.Store:
+		c.Check(err != nil, "store-on-empty-table-errors", "%s reported success although the routing table is empty (nothing can have been stored)", op.Name)
+	case op.Lookup:
+		c.Check(err != nil, "lookup-on-empty-table-errors", "%s returned no error on an empty routing table", op.Name)
+	default:
+		c.Check(err != nil || empty, "empty-table-error-or-empty", "%s returned a non-empty result without error on an empty routing table", op.Name)
+	}
+}
+
+func vC16Trim(s string, n int) string {
+	if len(s) > n {
+		return s[:n] + "…"
+	}
+	return s
+}
+
+func TestVerif_C16_safety(t *testing.T) {
+	vC16StartRealClock()
+	vh.Run(t, vh.Spec{Prop: "C16", Unit: "safety", Quick: 160, Thorough: 6000, CostMs: 40,
+		Rule: "two case kinds. ctor (1/3): NewFullRT on a fake host with a PRNG subset of construction options missing (BootstrapPeers, BucketSize, Validator, crawler, limit, message sender), called under recover, then closed. ops (2/3): an instance whose table stays empty (crawler reporting nothing / only failures / only peers the public filter drops / default crawler with unreachable bootstrap peers; options missing at random; providers or values disabled in some cases) is sent every single and bulk operation (GetClosestPeers, FindPeer, GetValue, SearchValue, PutValue, Provide, FindProviders(Async), ProvideMany, PutMany incl. zero keys and mismatched lengths, CheckPeers, Bootstrap, Ready, Stat) in PRNG order inside a virtual-time bubble, each under recover; a dedicated 1/24 of the ops cases omits BucketSize on a NON-empty table; non-trivial = at least 10 operations returned; distinct by (kind, options, order)",
+		Clauses: []string{"ctor-no-panic", "no-panic", "returns-promptly", "store-on-empty-table-errors", "lookup-on-empty-table-errors", "empty-table-error-or-empty", "channel-closed", "close-returns"}},
+		func(c *vh.Case) {
+			r := c.R
+			self := vsim.PeerID("frt-self", c.Idx)
+			if r.Intn(3) == 0 {
+				vC16SafetyCtor(c, self)
+				return
+			}
+			vC16SafetyOps(t, c, self)
+		})
+}
+
+func vC16SafetyCtor(c *vh.Case, self peer.ID) {
+	r := c.R
+	h := vsim.NewHost(self, ma.StringCast("/ip4/9.9.9.9/tcp/4001"))
+	defer h.Close()
+	cfg := vFrtCfg{K: 20, NoBootstrap: r.Intn(2) == 0, NoBucketSize: r.Intn(2) == 0, NoLimitOpt: r.Intn(2) == 0, Limit: r.Intn(4)}
+	if r.Intn(2) == 0 {
+		cfg.Validator, _ = vFrtNsValidator()
+	}
+	if r.Intn(2) == 0 {
+		cfg.Sim = vsim.NewSim(h, 20)
+	}
+	var cr crawler.Crawler
+	if r.Intn(2) == 0 {
+		cr = &vFrtCrawler{h: h}
+	}
+	c.Set("kind", "ctor")
+	c.Set("missing", fmt.Sprintf("bootstrap=%v bucketsize=%v limit=%v validator=%v sender=%v crawler=%v", cfg.NoBootstrap, cfg.NoBucketSize, cfg.NoLimitOpt, cfg.Validator == nil, cfg.Sim == nil, cr == nil))
+	var d *FullRT
+	var err error
+	var pan any
+	var stack string
+	func() {
+		defer func() {
+			if rr := recover(); rr != nil {
+				pan, stack = rr, string(debug.Stack())
+			}
+		}()
+		d, err = vFrtNew(h, cr, cfg)
+	}()
+	c.Clause("ctor-no-panic")
+	if pan != nil {
+		sig := "ctor/panic@" + vh.TopRepoFrame([]byte(stack))
+		if cfg.NoBootstrap && strings.Contains(fmt.Sprint(pan), "nil pointer") {
+			sig = "ctor/nil-bootstrap-peers"
+		}
+		c.FailSig("ctor-no-panic", sig, "NewFullRT panicked (BootstrapPeers option missing=%v): %v\n%s", cfg.NoBootstrap, pan, vC16Trim(stack, 3000))
+		return
+	}
+	c.Obs("constructions", 1)
+	if err != nil {
+		c.Logf("NewFullRT returned error: %v", err)
+		return
+	}
+	func() {
+		defer func() {
+			if rr := recover(); rr != nil {
+				c.FailSig("no-panic", "close/panic@"+vh.TopRepoFrame(debug.Stack()), "Close panicked: %v", rr)
+			}
+		}()
+		_ = d.Stat()
+		_ = d.Ready()
+		d.Close()
+	}()
+}
+
+func vC16SafetyOps(t *testing.T, c *vh.Case, self peer.ID) {
+	r := c.R
+	cfg := vFrtCfg{K: []int{1, 3, 20}[r.Intn(3)], NoBucketSize: r.Intn(4) == 0, NoLimitOpt: r.Intn(2) == 0, Limit: r.Intn(4), Interval: time.Hour,
+		BulkPar: []int{0, 1, 4}[r.Intn(3)], TimeoutPerOp: []time.Duration{0, time.Second}[r.Intn(2)]}
+	useValidator := r.Intn(4) != 0
+	disable := []string{"", "", "", "providers", "values"}[r.Intn(5)]
+	crawlerKind := []string{"nothing", "failures", "filtered", "default"}[r.Intn(4)]
+	nonEmptyNoK := r.Intn(24) == 0
+	if nonEmptyNoK {
+		cfg.NoBucketSize, crawlerKind, disable = true, "members", ""
+	}
+	order := r.Perm(17)
+	nKeys := 1 + r.Intn(20)
+	c.Set("kind", "ops")
+	c.Set("options", fmt.Sprintf("K=%d bucketsize-missing=%v limit-missing=%v limit=%d validator=%v disabled=%q crawler=%s bulkpar=%d", cfg.K, cfg.NoBucketSize, cfg.NoLimitOpt, cfg.Limit, useValidator, disable, crawlerKind, cfg.BulkPar))
+	returned := 0
+	c.Bubble(t, 2*time.Hour, "safety-hang", func(t *testing.T) {
+		h := vsim.NewHost(self, ma.StringCast("/ip4/9.9.9.9/tcp/4001"))
+		defer h.Close()
+		sim := vsim.NewSim(h, 20)
+		cfg.Sim = sim
+		if useValidator {
+			cfg.Validator, _ = vFrtNsValidator()
+		}
+		switch disable {
+		case "providers":
+			cfg.DHTOpts = append(cfg.DHTOpts, kaddht.DisableProviders())
+		case "values":
+			cfg.DHTOpts = append(cfg.DHTOpts, kaddht.DisableValues())
+		}
+		var cr crawler.Crawler
+		fc := &vFrtCrawler{h: h}
+		cr = fc
+		switch crawlerKind {
+		case "nothing":
+			if r.Intn(2) == 0 {
+				fc.Set(&vFrtGen{})
+			}
+		case "failures":
+			fc.Set(&vFrtGen{Fails: []peer.ID{vsim.PeerID("sf", 1), vsim.PeerID("sf", 2)}})
+		case "filtered":
+			fc.Set(&vFrtGen{Peers: []vFrtPeer{
+				{ID: vsim.PeerID("sf", 3), Addrs: []ma.Multiaddr{vFrtGroupAddr(1, 1, false)}, NoConn: true},
+				{ID: vsim.PeerID("sf", 4), Addrs: []ma.Multiaddr{ma.StringCast("/ip4/192.168.1.4/tcp/4001")}, Private: true}}})
+		case "default":
+			// the real crawler over the simulated network: bootstrap peers that are dead or have no address
+			dc, err := crawler.NewDefaultCrawler(h, crawler.WithParallelism(4), crawler.WithCustomMessageSender(sim.Builder()))
+			if err != nil {
+				c.Fail("harness-ctor", "NewDefaultCrawler: %v", err)
+				return
+			}
+			cr = dc
+			dead := vsim.PeerID("sf", 5)
+			sim.Add(&vsim.SimPeer{ID: dead, Dead: true, Addrs: []ma.Multiaddr{vFrtGroupAddr(2, 1, false)}})
+			cfg.Bootstrap = []peer.AddrInfo{{ID: dead, Addrs: []ma.Multiaddr{vFrtGroupAddr(2, 1, false)}}, {ID: vsim.PeerID("sf", 6)}}
+		case "members":
+			fc.Set(vC16GenTable(c, 0, vC16TableSpec{N: 5 + r.Intn(30), Layout: "distinct"}, 0, nil))
+		}
+		d, err := vFrtNew(h, cr, cfg)
+		if err != nil {
+			c.Fail("harness-ctor", "NewFullRT: %v", err)
+			return
+		}
+		closed := false
+		defer func() {
+			if !closed {
+				d.Close()
+			}
+		}()
+		time.Sleep(30 * time.Second) // the initial crawl (dial timeouts of dead bootstrap peers included) is over
+		synctest.Wait()
+		tableEmpty := len(d.Stat()) == 0
+		if !nonEmptyNoK && !tableEmpty {
+			c.Fail("harness-table-not-empty", "table has %d peers", len(d.Stat()))
+			return
+		}
+		if nonEmptyNoK && d.bucketSize+2*d.ipDiversityFilterLimit <= 0 && !tableEmpty {
+			// GetClosestPeers advances its scan by bucketSize + 2*limit = 0 per round over a non-empty
+			// table: a busy loop that virtual time cannot observe. The deterministic precondition is
+			// confirmed in real time (which can only withdraw the verdict), then the process must exit.
+			done := make(chan struct{})
+			go func() {
+				defer func() { recover(); close(done) }()
+				d.GetClosestPeers(context.Background(), "/v/spin")
+			}()
+			confirmed := vC16RealWait(done, 3*time.Second)
+			c.Clause("no-hang")
+			if confirmed {
+				c.FailSig("no-hang", "gcp/no-bucket-size/spin", "NewFullRT without a BucketSize option succeeded (bucketSize=%d, effective limit=%d) and GetClosestPeers on a table of %d peers did not return within 3 s of real time: its scan loop advances by bucketSize+2*limit = 0 (fullrt/dht.go GetClosestPeers), spinning while holding the three read locks", d.bucketSize, d.ipDiversityFilterLimit, len(d.Stat()))
+				c.ExitNow()
+			}
+		}
+		budget := 20 * time.Second
+		mkKey := func(i int) string { return fmt.Sprintf("/v/safety-%d-%d", c.Idx, i) }
+		mkCid := func(i int) cid.Cid {
+			m, _ := mh.Sum([]byte(fmt.Sprintf("safety-%d-%d", c.Idx, i)), mh.SHA2_256, -1)
+			return cid.NewCidV1(cid.Raw, m)
+		}
+		var mhs []mh.Multihash
+		var keys []string
+		var vals [][]byte
+		for i := 0; i < nKeys; i++ {
+			mhs = append(mhs, mkCid(100+i).Hash())
+			keys = append(keys, mkKey(100+i))
+			vals = append(vals, vFrtVal(mkKey(100+i), i, time.Time{}, "bulk"))
+		}
+		drainBytes := func(ch <-chan []byte, err error) (bool, error) {
+			if err != nil {
+				return true, err
+			}
+			n := 0
+			tm := time.NewTimer(budget)
+			defer tm.Stop()
+			for {
+				select {
+				case _, ok := <-ch:
+					if !ok {
+						c.Clause("channel-closed")
+						return n == 0, nil
+					}
+					n++
+				case <-tm.C:
+					c.Fail("channel-closed", "SearchValue channel still open after %v", budget)
+					return n == 0, nil
+				}
+			}
+		}
+		ops := []vC16Op{
+			{Name: "GetClosestPeers", Run: func(ctx context.Context) (bool, error) {
+				ps, err := d.GetClosestPeers(ctx, mkKey(1))
+				return len(ps) == 0, err
+			}},
+			{Name: "FindPeer", Lookup: true, Run: func(ctx context.Context) (bool, error) {
+				_, err := d.FindPeer(ctx, vsim.PeerID("sf-target", c.Idx))
+				return true, err
+			}},
+			{Name: "GetValue", Lookup: true, Run: func(ctx context.Context) (bool, error) {
+				v, err := d.GetValue(ctx, mkKey(2))
+				return v == nil, err
+			}},
+			{Name: "SearchValue", Run: func(ctx context.Context) (bool, error) {
+				return drainBytes(d.SearchValue(ctx, mkKey(3)))
+			}},
+			{Name: "PutValue", Store: true, Run: func(ctx context.Context) (bool, error) {
+				return true, d.PutValue(ctx, mkKey(4), vFrtVal(mkKey(4), 1, time.Time{}, "put"))
+			}},
+			{Name: "Provide/broadcast", Store: true, Run: func(ctx context.Context) (bool, error) {
+				return true, d.Provide(ctx, mkCid(5), true)
+			}},
+			{Name: "Provide/local", Run: func(ctx context.Context) (bool, error) {
+				return true, d.Provide(ctx, mkCid(6), false)
+			}},
+			{Name: "Provide/undefined-cid", Run: func(ctx context.Context) (bool, error) {
+				return true, d.Provide(ctx, cid.Undef, true)
+			}},
+			{Name: "FindProviders", Run: func(ctx context.Context) (bool, error) {
+				ps, err := d.FindProviders(ctx, mkCid(7))
+				return len(ps) == 0, err
+			}},
+			{Name: "FindProvidersAsync", Run: func(ctx context.Context) (bool, error) {
+				ch := d.FindProvidersAsync(ctx, mkCid(8), r.Intn(3))
+				n := 0
+				tm := time.NewTimer(budget)
+				defer tm.Stop()
+				for {
+					select {
+					case _, ok := <-ch:
+						if !ok {
+							c.Clause("channel-closed")
+							return n == 0, nil
+						}
+						n++
+					case <-tm.C:
+						c.Fail("channel-closed", "FindProvidersAsync channel still open after %v", budget)
+						return n == 0, nil
+					}
+				}
+			}},
+			{Name: "ProvideMany", Store: true, Bulk: true, Run: func(ctx context.Context) (bool, error) {
+				return true, d.ProvideMany(ctx, mhs)
+			}},
+			{Name: "ProvideMany/no-keys", Bulk: true, Run: func(ctx context.Context) (bool, error) {
+				return true, d.ProvideMany(ctx, nil)
+			}},
+			{Name: "PutMany", Store: true, Bulk: true, Run: func(ctx context.Context) (bool, error) {
+				return true, d.PutMany(ctx, keys, vals)
+			}},
+			{Name: "PutMany/mismatch", Store: true, Bulk: true, Run: func(ctx context.Context) (bool, error) {
+				return true, d.PutMany(ctx, keys, vals[:len(vals)-1])
+			}},
+			{Name: "CheckPeers", Run: func(ctx context.Context) (bool, error) {
+				ok, total := d.CheckPeers(ctx)
+				return ok == 0 && total == 0, nil
+			}},
+			{Name: "Bootstrap", Run: func(ctx context.Context) (bool, error) {
+				return true, d.Bootstrap(ctx)
+			}},
+			{Name: "Ready+Stat", Run: func(ctx context.Context) (bool, error) {
+				return !d.Ready() && len(d.Stat()) == 0, nil
+			}},
+		}
+		var names []string
+		for _, i := range order {
+			op := ops[i]
+			vC16Call(c, op, tableEmpty, budget)
+			returned++
+			names = append(names, op.Name)
+		}
+		c.Logf("order: %s", strings.Join(names, " "))
+		t0 := time.Now()
+		func() {
+			defer func() {
+				if rr := recover(); rr != nil {
+					c.FailSig("no-panic", "close/panic@"+vh.TopRepoFrame(debug.Stack()), "Close panicked: %v", rr)
+				}
+			}()
+			d.Close()
+			closed = true
+		}()
+		c.Check(time.Since(t0) <= budget, "close-returns", "Close took %v of virtual time", time.Since(t0))
+	})
+	if returned >= 10 {
+		c.Nontrivial(fmt.Sprintf("%s/%v", c.Spec.Unit, order))
+	}
+}
+
+// A real-time tick counter driven from outside any bubble: inside a bubble the time package is
+// virtual, and a busy loop of the code under test never lets virtual time advance.
+var (
+	vC16RealTicks atomic.Int64
+	vC16RealOnce  sync.Once
+)
+
+// vC16StartRealClock must be called from a goroutine that is not in a bubble.
+func vC16StartRealClock() {
+	vC16RealOnce.Do(func() {
+		go func() {
+			for {
+				time.Sleep(10 * time.Millisecond)
+				vC16RealTicks.Add(1)
+			}
+		}()
+	})
+}
+
+// vC16RealWait polls (without blocking, so that it works inside a bubble) until done is closed or
+// d of REAL time has passed.
+func vC16RealWait(done <-chan struct{}, d time.Duration) (timedOut bool) {
+	end := vC16RealTicks.Load() + int64(d/(10*time.Millisecond))
+	for vC16RealTicks.Load() < end {
+		select {
+		case <-done:
+			return false
+		default:
+		}
+		runtime.Gosched()
+	}
+	select {
+	case <-done:
+		return false
+	default:
+		return true
+	}
 }
